@@ -35,6 +35,7 @@ type Event struct {
 type Violation struct {
 	Label   string
 	Detail  string
+	Other   []ReplayItem // cross-path observations: the intrinsic values of the other execution
 	Replay  []ReplayItem
 	Stack   []string
 	Decs    int
@@ -144,6 +145,50 @@ type Stats struct {
 	MaxDecs                          int
 	Wall                             time.Duration
 	DecidingQueries                  []string
+	same                             map[string]sameEntry // vSame observations, shared by all paths
+}
+
+// sameEntry: the first value observed under a vSame key and the intrinsic
+// values of the execution that observed it.
+type sameEntry struct {
+	val    string
+	replay []ReplayItem
+}
+
+// same implements vSame(key, val): every execution (path) that reaches a
+// vSame call with the same key must observe the same value. Each path runs in
+// a fresh interpreter with pristine package state, so this compares what the
+// code under test does in two separate processes - a 2-safety check that sees
+// state leaking through anything at all (package variables included).
+func (i *interpreter) same(key, val string) {
+	ps := i.ps()
+	r, m := i.check(ps.tt.Bool(true), true, "assert")
+	if r != Sat {
+		i.w.mu.Lock()
+		i.w.stats.Inconclusive++
+		i.w.mu.Unlock()
+		return
+	}
+	items := ps.replayOf(m)
+	i.w.mu.Lock()
+	if i.w.stats.same == nil {
+		i.w.stats.same = map[string]sameEntry{}
+	}
+	e, seen := i.w.stats.same[key]
+	if !seen {
+		i.w.stats.same[key] = sameEntry{val, items}
+	}
+	i.w.mu.Unlock()
+	if seen && e.val != val {
+		label := "the same call gives the same bytes in every execution (cross-path)"
+		for _, v := range ps.viols {
+			if v.Label == label {
+				return
+			}
+		}
+		ps.viols = append(ps.viols, Violation{Label: label, Detail: fmt.Sprintf("key %q: %q here, %q in the other execution", key, val, e.val),
+			Replay: items, Other: e.replay, Stack: i.stackStrings(), Decs: len(ps.trail), Known: ps.known})
+	}
 }
 
 type worker struct {
@@ -901,7 +946,7 @@ func (st *Stats) Summary() map[string]any {
 	var viols []map[string]any
 	for _, v := range st.Violations {
 		viols = append(viols, map[string]any{"label": v.Label, "detail": v.Detail, "replay": v.Replay,
-			"stack": v.Stack, "outputs": v.Outputs, "known": v.Known})
+			"stack": v.Stack, "outputs": v.Outputs, "known": v.Known, "other": v.Other})
 	}
 	return map[string]any{
 		"paths": st.Paths, "aborted": st.Aborted, "nontrivial_paths": st.NontrivialPaths,
